@@ -205,6 +205,7 @@ type world struct {
 	userBlock cipher.Block
 	idBlocks  []cipher.Block
 
+	dc         socks5.DomainCache // of the harness-assembled unpacker (more than one identity header)
 	tunnel     conn.Addr
 	polC, polS string // padding policies of the client / of the server (ss2022)
 	only       bool   // direct server: tunnelUDPTargetOnly
